@@ -140,11 +140,21 @@ pub fn crash_check(prop: &str, suites: Vec<Suite>, accept: &[&str], plan: CrashP
             let now = po.final_model.as_ref().map(|m| m.now).unwrap_or(crate::sut::T0);
             let opts = CrashOpts { sector_tear: plan.sector_tear, reopen_cycles: plan.reopen_cycles, nest: plan.nest, now, probe_auto_ts: plan.probe_auto_ts };
             let ctx = hash64(&[s.name.as_bytes(), format!("{:?}", ob.hists).as_bytes(), &now.to_le_bytes()]);
-            let (st, mut findings) = if plan.crash {
+            let (mut st, mut findings) = if plan.crash {
                 crash::check_history(&s.cfg, base, &po.log, &ob, from, &opts, &seen, ctx)
             } else {
                 (CrashStats::default(), Vec::new())
             };
+            if plan.crash && s.cfg.ttl {
+                // the restart may happen long after the crash: recover every image again
+                // at an instant past every expiry
+                let later = CrashOpts { now: now + 100_000 * 1_000_000_000, sector_tear: false, reopen_cycles: 0, nest: 0, probe_auto_ts: false };
+                let (st2, f2) = crash::check_history(&s.cfg, base, &po.log, &ob, from, &later, &seen, ctx ^ 0x7711);
+                st.images += st2.images;
+                st.distinct += st2.distinct;
+                st.recoveries += st2.recoveries;
+                findings.extend(f2.into_iter().map(|f| crash::Finding { msg: f.msg, desc: format!("{} (recovered 100000 s later)", f.desc) }));
+            }
             for m in &po.flush_checks {
                 findings.push(crash::Finding { msg: m.clone(), desc: "live store at flush acknowledgement".into() });
             }
